@@ -1,7 +1,7 @@
 """Configuration of ./check C01 (see cfg/README)."""
 
 PROP = {'drive': ['Font'],
- 'modules': ['SfntV.Props.C01', 'SfntV.Props.C01Codecs', 'SfntV.Props.C01File', 'SfntV.Props.C01FileEx', 'SfntV.Props.C01FileCff', 'SfntV.Props.C01FileCffEx', 'SfntV.Props.C01FileLayout', 'SfntV.Props.C01FileLayoutEx'],
+ 'modules': ['SfntV.Props.C01', 'SfntV.Props.C01Codecs', 'SfntV.Props.C01File', 'SfntV.Props.C01FileEx', 'SfntV.Props.C01FileCff', 'SfntV.Props.C01FileCffEx', 'SfntV.Props.C01FileLayout', 'SfntV.Props.C01FileLayoutEx', 'SfntV.Props.C01FileCffC13', 'SfntV.Props.C01FileCffC13Ex', 'SfntV.Props.C01FileCffT2', 'SfntV.Props.C01FileCffT2Ex'],
  'required_theorems': ['C01_write_accepted',
                        'C01_read_write',
                        'C01_env_irrelevant',
@@ -24,6 +24,17 @@ PROP = {'drive': ['Font'],
                        'C01_file_example_layout',
                        'C01_file_example_cff_layout_in_domain',
                        'C01_file_example_cff_layout',
+                       'C01_file_roundtrip_cff_c13',
+                       'exFontIn_writes',
+                       'exFontIn_dom',
+                       'exFontIn_view',
+                       'C01_file_example_cff_c13_in_domain',
+                       'C01_file_example_cff_c13',
+                       'C01_file_roundtrip_cff_t2',
+                       'C01_t2_width_encoded',
+                       'exFontIn_view_t2',
+                       'C01_file_example_cff_t2_in_domain',
+                       'C01_file_example_cff_t2',
                        'C01_head_codec',
                        'C01_os2_codec',
                        'C01_post_codec',
@@ -50,9 +61,23 @@ PROP = {'drive': ['Font'],
              'lookup list through LL.specRead (the specification reader of C08, tied to the Go reader by C08 streams, '
              'not the checked-index model of C02), InfoOk carries the PartGood hypotheses of the per-lookup codecs, the '
              'GDEF theorem is relational (GdefOk), and the decoded value enters the font model as a token of the bytes. '
-             'The CFF table (C13: its FontIn/FontOut take '
-             'charstrings opaque and floats as 9-digit decimals, while widths/extents of the font model need the '
-             'charstring interpreter C05 and exact float->decimal conversion) stays a guard with an abstract decoder; C01_file_roundtrip_cff is the '
+             'The CFF table: C01_file_roundtrip_cff_c13 (Proofs/FontFileCffC13.lean) replaces the abstract decCff by '
+             'decCffC13 T S = C13 readFont (header, INDEXes, Top/Private/Font DICTs, strings, charset, Encoding, FDSelect, '
+             'all offsets) followed by viewOf S, and the guard by C13\'s domain (CffTableOk: the table is writeFont of a '
+             'FontIn in SimpleDom or CidDom, < 2 GiB); FontInfo strings and IsFixedPitch are read off the FontOut concretely '
+             '(bytewise = exact for ASCII; non-ASCII FontInfo strings are outside the domain). What stays an EXPLICIT, '
+             'arbitrary parameter S : CffSem, not discharged: (1) glyphs = interpretation of the Type 2 charstrings giving '
+             'advance widths and extents (C04/C05), (2) real / matrix = conversion of a DICT decimal to the float64 of the '
+             'Go value and of the font matrix to the opaque FM, (3) token = summary of the remaining decoded content. '
+             'Example C01_file_example_cff_c13: real 391-string tables, a 138-byte CFF table proved to be writeFont of '
+             'exFontIn (3 passes), 1236-byte OTTO file read back through C13 and C08 readers. '
+             'WIDTHS: C01_file_roundtrip_cff_t2 (Proofs/FontFileCffT2.lean) instantiates (1) for the advance widths: '
+             'semT2 q ext runs T2.interp q (q = goQuirks = model of decodeCharString, C05) on every charstring C13 readFont '
+             'returns, in the environment of its private DICT, and the widths Read returns are int16(trunc(g.width)) of the '
+             'interpreted glyphs; C01_t2_width_encoded gives the C04 width formula for encodeCharString output (hypothesis: '
+             'goQuirks = strict on those bytes, C05_quirks_irrelevant territory, not composed). Still explicit: ext (extent '
+             'of a decoded glyph), real, matrix, token; default/nominal widths that are not multiples of 2^-16 are rejected '
+             'by the model (outside the domain). Example C01_file_example_cff_t2 (both charstrings interpreted in kernel). C01_file_roundtrip_cff is the '
              'OpenType/CFF flavour with every table around the outlines composed. The ligature GSUB that Read '
              'synthesises is a token (C15 standardLigatures printed), not a gtab payload. Tied by V font.file: '
              'byte-exact equality of the model file with the real Font.Write on every generated font of all three '
